@@ -287,7 +287,7 @@ U(id="C01.sym.slot", props=["C01", "C03"], file="enc/encoder.rs", extra_files=["
 U(id="C19.props", props=["C19", "C03", "C18"], file="enc/lzma2_writer.rs", stubs=[], harnesses=["c19_props_roundtrip", "c19_presets_in_range"],
   functions=[("src/enc/lzma2_writer.rs", "get_props"), ("src/enc/lzma2_writer.rs", "with_preset"), ("src/enc/lzma2_writer.rs", "set_preset"), ("src/enc/lzma2_writer.rs", "get_extra_size_before")],
   contract="in-range (lc,lp,pb) <-> properties byte <= 224 bijectively (the readers' decomposition recovers them); every preset yields in-range options")
-U(id="C01.l2.w", props=["C01", "C03", "C18"], file="enc/lzma2_writer.rs", extra_files=["enc/range_enc.rs"],
+U(id="C01.l2.w", props=["C01", "C03", "C18", "C07"], file="enc/lzma2_writer.rs", extra_files=["enc/range_enc.rs"],
   harnesses=["c01_l2_write_lzma", "c01_l2_write_uncompressed", "c01_l2_new_flags"],
   contract_stubs=["LZMA2Writer encoder storage zeroed (never driven); LZEncoderData::copy_uncompressed -> records (backward,len); LZMAEncoder::new -> zeroed pair"],
   functions=[("src/enc/lzma2_writer.rs", "write_lzma"), ("src/enc/lzma2_writer.rs", "write_uncompressed"), ("src/enc/lzma2_writer.rs", "new", "LZMA2Writer"),
@@ -401,7 +401,7 @@ PARK(id="C08.worker.w", props=["C08", "C13"], file="enc/lzma2_writer_mt.rs", ext
   contract="per stolen unit exactly one result with the same sequence number; its bytes encode exactly that unit and start with a dictionary-reset chunk (self-contained, no state carried between units, preset dictionary dropped); busy counter back to 0; no error")
 
 U(id="C06.xz.bhdr", props=["C06", "C04", "C03"], file="xz/reader.rs", extra_files=["xz.rs"],
-  harnesses=["c06_xz_block_header_total_s1"], thorough_harnesses=["c06_xz_block_header_total_s2", "c06_xz_block_header_total_s3", "c06_xz_block_header_total_s5"], timeout_quick=700,
+  harnesses=["c06_xz_block_header_total_s1"], thorough_harnesses=["c06_xz_block_header_total_s2", "c06_xz_block_header_total_s3", "c06_xz_block_header_total_s5"], timeout_quick=1500,
   kind="bounded", bound="declared header sizes 8, 12, 16 (24 in thorough) bytes, every content",
   contract_stubs=["parse_multibyte_integer / count_multibyte_integer_size -> contract (exact for 1..3-byte encodings, over-approximated beyond; met by the real functions: C02.mbi c06_mbi_contract_short)"],
   functions=[("src/xz/reader.rs", "parse", "BlockHeader")],
@@ -479,8 +479,8 @@ U(id="C01.mf.skip", props=["C01", "C13"], file="lz/hc4.rs", harnesses=["c01_hc4_
   functions=[("src/lz/hc4.rs", "skip", "MatchFind for HC4"), ("src/lz/hc4.rs", "move_pos", "HC4")],
   contract="HC4::skip(n) meets the MatchFind contract assumed by C01.lze.pending: n window steps, a position inserted iff >= 4 bytes look-ahead, lz_pos - (dict+1) = read_pos + 1 - pending, cyclic_pos follows")
 
-PARK(id="C03.xz.backward", props=["C03", "C02"], file="xz/writer.rs", harnesses=["c03_xz_footer_backward_n129", "c03_xz_footer_backward_n130", "c03_xz_footer_backward_n127"],
-  kind="bounded", bound="127, 129 and 130 index records of fixed sizes (record count field of 1 and 2 bytes; index sizes 1 and 2 mod 4 before padding)",
+U(id="C03.xz.backward", props=["C03", "C02"], file="xz/writer.rs", harnesses=["c03_xz_footer_backward_n129", "c03_xz_footer_backward_n130", "c03_xz_footer_backward_n127"], tier="thorough", timeout=1500,
+  kind="bounded", bound="127, 129 and 133 index records with 1-byte size fields (record count field of 1 and 2 bytes; unpadded index size 1 mod 4)",
   functions=[("src/xz/writer.rs", "write_stream_footer"), ("src/xz.rs", "count_multibyte_integer_size_for_value")],
   contract="footer Backward Size = real index size / 4 - 1 (xz-file-format 2.1.2.1) also when the Number of Records field takes 2 bytes")
 
@@ -490,10 +490,21 @@ U(id="C05.rc.src", props=["C05"], file="range_dec.rs", harnesses=["c05_rc_stream
   contract="stream byte fetch: bytes in order across Interrupted; try_read_u8 / read_u32_be return the source's error kind (EOF, hard error); known finding D19: read_u8 (used by normalize) turns a source error into the byte 0x00")
 
 U(id="C16.l2.read", props=["C16", "C07", "C04", "C05", "C01"], file="lzma2_reader.rs", features=NOSTD,
-  harnesses=["c16_l2_read_uncompressed_k1", "c16_l2_read_uncompressed_k3", "c16_l2_read_uncompressed_k4", "c04_l2_error_is_sticky_structural", "c04_l2_error_is_sticky_truncated"],
+  harnesses=["c16_l2_read_uncompressed_k1", "c16_l2_read_uncompressed_k3", "c16_l2_read_uncompressed_k4", "c04_l2_error_is_sticky_structural", "c04_l2_error_is_sticky_truncated"], thorough_harnesses=["c05_l2_missing_terminator"],
   kind="bounded", bound="stream of two uncompressed chunks (3 + 1 bytes) + terminator + trailing bytes; first read of 1/3/4 bytes; no_std build",
   functions=[("src/lzma2_reader.rs", "read_decode"), ("src/lzma2_reader.rs", "read", "Read for LZMA2Reader"), ("src/lzma2_reader.rs", "decode_chunk_header"), ("src/lz/lz_decoder.rs", "copy_uncompressed")],
   contract="read loop over uncompressed chunks: bytes in order for every read split, end only after the terminator, exactly the stream's bytes consumed, later reads Ok(0) without touching the source; structural / truncation errors are returned with their kind and stay returned")
+
+U(id="C05.exact", props=["C05", "C16", "C06"], file="lzma2_reader.rs", features=NOSTD, harnesses=["c05_byte_reader_u8", "c05_byte_reader_u16", "c05_byte_reader_u16_be", "c05_byte_reader_u32", "c05_byte_reader_u32_be", "c05_byte_reader_u64", "c05_byte_writer_fields"],
+  stubs=ERR + ["io_any source / sink"],
+  functions=[("src/lib.rs", "read_u8", "ByteReader for T"), ("src/lib.rs", "read_u16", "ByteReader for T"), ("src/lib.rs", "read_u16_be", "ByteReader for T"), ("src/lib.rs", "read_u32", "ByteReader for T"),
+             ("src/lib.rs", "read_u32_be", "ByteReader for T"), ("src/lib.rs", "read_u64", "ByteReader for T"), ("src/lib.rs", "write_u8", "ByteWriter for T"), ("src/lib.rs", "write_u64", "ByteWriter for T"),
+             ("src/lzma2_reader.rs", "decode_chunk_header")],
+  contract="fixed-width field reads return a value only when all its bytes were delivered (short reads / Interrupted tolerated, EOF => Err(EOF), source error kind preserved); writes emit exactly the value's bytes; an LZMA2 stream without its 0x00 terminator is Err(EOF), not a clean end")
+PARK(id="C08.scan", props=["C08", "C06", "C12"], file="lzip/reader_mt.rs", harnesses=["c08_lzip_scan_n26", "c08_lzip_scan_n30"], assumptions=SCHED,
+  kind="bounded", bound="every file of 26 and of 30 bytes", contract_stubs=["spawn_worker_thread -> ghost counter"],
+  functions=[("src/lzip/reader_mt.rs", "scan_members"), ("src/lzip/reader_mt.rs", "member_count")],
+  contract="member scan on arbitrary bytes: no panic / overflow, I/O calls linear in the file size (progress), Ok => members in forward order, contiguous, non-empty, each at a magic, last ends at end of file")
 
 # ---------------------------------------------------------------------------------------- quick-tier budget
 # Harnesses kept in the quick tier per unit; every other harness of the unit runs in the thorough tier only.
